@@ -371,7 +371,12 @@ def run(ck: Check):
             for m in first["members"]:
                 rng.shuffle(m[1])
         steps = chain_steps(rng, first, rng.randint(1, 4), order_noise=(mode == 2), keep_identical=(mode != 3))
-        chains.append({"first": first, "steps": steps})
+        ch = {"first": first, "steps": steps}
+        if i % 3 == 1:
+            # a mixed group: some members announce subscription-metadata version 1..3 (other client libraries)
+            ids = {m for m, _ in first["members"]} | {m for st in steps for m, _ in st["members"]}
+            ch["mdver"] = {str(m): rng.choice([0, 1, 1, 2, 3]) for m in ids}
+        chains.append(ch)
     ck.log(f"chains: {len(chains)} ({len(chains) - n_chains} exhaustive two-step, {n_chains} random)")
     # only every few chains record the op log and go through the (costlier) model side
     every = ck.n(8, 40)
